@@ -278,6 +278,7 @@ Section Lift.
     - apply kk_queue_send; exact Hg.
     - eapply GG_same; [apply n_send_sd|exact Hg].
     - destruct (get_inst i w) as [ins|] eqn:Ei; [|exact Hg]. eapply GG_same; [eapply n_put_inst; [exact Ei|reflexivity]|exact Hg].
+    - eapply GG_same; [apply n_call_soon; reflexivity|exact Hg].
   Qed.
 
   (* every callback except an expiry keeps both invariants; the expiry callback is treated with its pop (below) *)
